@@ -326,10 +326,13 @@ func simpSelfcheck(ts *TermStore) bool {
 	defer s.Close()
 	d := ts.ZExt(ts.Var("d10", 10), 64)
 	e := ts.ZExt(ts.Var("e4", 4), 64)
-	bases := []uint64{0, 5, 999, 1<<63 - 1024, 1 << 63, ^uint64(0) - 1023, 123456789012}
+	bases := []uint64{0, 5, 999, 1<<63 - 1024, 1 << 63, ^uint64(0) - 1023, 123456789012, 1 << 20}
 	var xs []*Term
 	for _, b := range bases {
 		x := ts.Bin(OpAdd, d, ts.Const(64, b))
+		if b < 1<<32 {
+			xs = append(xs, ts.Bin(OpAdd, ts.ZExt(ts.Var("v22", 22), 64), ts.Const(64, b)))
+		}
 		xs = append(xs, x, ts.Neg(x), ts.Bin(OpSub, ts.Const(64, b|1<<40), d), ts.Bin(OpMul, x, ts.Const(64, 3)),
 			ts.Bin(OpAdd, ts.Bin(OpMul, e, ts.Const(64, 1000)), x), ts.Bin(OpAdd, x, ts.Const(64, -b)))
 	}
